@@ -429,6 +429,39 @@ example : basicAuth ⟨true, true, true, true, none, true, true⟩ = 200 := by d
 example : basicAuth ⟨true, true, true, true, some .BinasciiError, true, true⟩ = 400 := by decide
 example : basicAuth ⟨true, true, false, true, none, true, true⟩ = 401 := by decide
 
+/-! ### size limit, Host rule -/
+
+/-- the entity is read to its end, or the request is refused with 413 - exactly when more than `maxbytes` bytes
+    were read -/
+theorem sizedRead_ok_or_413 (m : Nat) (d : Option Nat) (a : Nat) :
+    (∃ n, sizedRead m d a = .ok n) ∨ sizedRead m d a = .error (.http 413) := by
+  cases d <;> simp only [sizedRead] <;> split
+  · right; rfl
+  · left; exact ⟨_, rfl⟩
+  · right; rfl
+  · left; exact ⟨_, rfl⟩
+
+theorem sizedRead_413_iff (m : Nat) (d : Option Nat) (a : Nat) :
+    sizedRead m d a = .error (.http 413) ↔
+      (m ≠ 0 ∧ (match d with | some l => min l a | none => a) > m) := by
+  cases d <;> simp only [sizedRead] <;> split
+  · rename_i h; exact ⟨fun _ => h, fun _ => rfl⟩
+  · rename_i h; exact ⟨fun h' => (by cases h'), fun h' => absurd h' h⟩
+  · rename_i h; exact ⟨fun _ => h, fun _ => rfl⟩
+  · rename_i h; exact ⟨fun h' => (by cases h'), fun h' => absurd h' h⟩
+
+theorem C07_sizedRead (m : Nat) (d : Option Nat) (a : Nat) : statusOf .rfileRead (sizedRead m d a) < 500 := by
+  rcases sizedRead_ok_or_413 m d a with ⟨n, h⟩ | h <;> rw [h]
+  · simp [statusOf]
+  · decide
+
+theorem C07_hostRule (p h : Bool) : statusOf .cookieLoad (hostRule p h) < 500 := by
+  cases p <;> cases h <;> decide
+
+example : sizedRead 1000 (some 1001) 1001 = .error (.http 413) := by decide
+example : sizedRead 1000 (some 1000) 5000 = .ok 1000 := by decide
+example : sizedRead 0 none 100000 = .ok 100000 := by decide
+
 /-! ### trailer lines of a chunked request body -/
 
 theorem trailerLoop_raises (fx : Bool) (lines : List (List UInt8)) (hk : Bool) (hne : ∀ l ∈ lines, l ≠ [])
